@@ -205,7 +205,8 @@ def run_property(prop_id, tier="quick", verif_seed=0, nruns=None, workers=None, 
                 if out["violation"] is not None and (first_violation is None or
                                                      out["violation"]["index"] < first_violation["index"]):
                     first_violation = out["violation"]
-                    break
+                    if not want_digests:
+                        break
         finally:
             ex.shutdown(wait=True, cancel_futures=True)
 
@@ -213,7 +214,9 @@ def run_property(prop_id, tier="quick", verif_seed=0, nruns=None, workers=None, 
         print("HARNESS-ERROR property=%s %s" % (prop_id, harness_error), flush=True)
         return 2, None
 
-    if first_violation is not None:
+    if first_violation is not None and want_digests:
+        violations.append(("search", "", first_violation["violation"]["signature"], ""))
+    elif first_violation is not None:
         from .shrink import shrink
         v = first_violation
         sig = v["violation"]["signature"]
@@ -228,6 +231,8 @@ def run_property(prop_id, tier="quick", verif_seed=0, nruns=None, workers=None, 
         violations.append(("search", path, sig, v["violation"]["detail"]))
 
     wall = time.time() - t0
+    if want_digests:
+        return (1 if violations else 0), sorted(digests)
     ev = build_evidence(prop, tier, verif_seed, agg, wall, known_open, witness_log, violations, hit_deadline,
                         workers)
     os.makedirs(os.path.join(HOME, "evidence"), exist_ok=True)
@@ -244,8 +249,6 @@ def run_property(prop_id, tier="quick", verif_seed=0, nruns=None, workers=None, 
         return 1, ev
     say("ok: %d runs, %d events, %d distinct non-trivial, %.1fs (%.0f runs/h)" % (
         agg["runs"], agg["events"], len(agg["pairs"]), wall, agg["runs"] / max(wall, 1e-9) * 3600))
-    if want_digests:
-        return 0, digests
     return 0, ev
 
 
